@@ -42,6 +42,9 @@ type Engine struct {
 	MinNontrivial int
 	// ChildTimeoutS per batch (default 900).
 	ChildTimeoutS int
+	// ClassifyFatal maps the output of a child that died to a violation signature
+	// (default "fatal").
+	ClassifyFatal func(output string) string
 	// Extra coverage keys computed by the parent from merged counts.
 	Extra func(res *Result) map[string]interface{}
 }
